@@ -230,6 +230,14 @@ func ApproveUpdateSideChain(native *native.NativeService) ([]byte, error) {
 	if sideChain == nil {
 		return utils.BYTE_FALSE, fmt.Errorf("ApproveUpdateSideChain, chainid is not requested update")
 	}
+	//the request must come from the owner the chain is registered to
+	registered, err := GetSideChain(native, params.Chainid)
+	if err != nil {
+		return utils.BYTE_FALSE, fmt.Errorf("ApproveUpdateSideChain, getSideChain error: %v", err)
+	}
+	if registered == nil || registered.Address != sideChain.Address {
+		return utils.BYTE_FALSE, fmt.Errorf("ApproveUpdateSideChain, update request was not made by the registered owner of the side chain")
+	}
 
 	//check consensus signs
 	ok, err := node_manager.CheckConsensusSigns(native, APPROVE_UPDATE_SIDE_CHAIN, utils.GetUint64Bytes(params.Chainid),
